@@ -1,10 +1,12 @@
 import Driver.Mem
 import Driver.Core
 import Driver.Bst
+import Driver.Map
 
 def main (args : List String) : IO UInt32 := do
   match args with
   | ["mem"] => Driver.Mem.run; return 0
   | ["core"] => Driver.Core.run; return 0
   | ["bst"] => Driver.Bst.run; return 0
+  | ["map"] => Driver.Map.run; return 0
   | _ => IO.eprintln "usage: lmdriver <model>"; return 2
